@@ -1,4 +1,5 @@
 import FCA.Generated.Lindig
+import FCA.Generated.LindigLattice
 import FCA.Model.Lindig
 /-
 C03 / C05 over the regenerated source: the body of the `for add in Objects.atomic(minimal)` loop of
@@ -44,3 +45,36 @@ end FCA
 #print axioms FCA.C03_generated_neighbors_body
 #print axioms FCA.C03_generated_neighbors_loop
 #print axioms FCA.C03_generated_neighbors
+
+/-! ### `lindig.lattice`: the neighbor loop of the heap loop, regenerated from the current source -/
+namespace FCA
+
+/-- the regenerated body of `for n_extent, n_intent in neighbors(extent, Objects=Objects)`, folded over the yielded
+neighbors, is the model's `linkNeighbors` (dict + mutable tuples read as the record list, heap as the list of pushed extents) -/
+theorem C03_generated_lattice_body (e : Nat) (nbs : List (Nat × Nat)) (recs : List Rec) (heap : List Nat) :
+    linkNeighbors e nbs recs heap =
+      nbs.foldl (fun s nb => Generated.lattice_body e nb.1 nb.2 s.1 s.2) (recs, heap) := by
+  induction nbs generalizing recs heap with
+  | nil => simp [linkNeighbors]
+  | cons nb nbs ih =>
+    obtain ⟨ne, ni⟩ := nb
+    rw [linkNeighbors, List.foldl_cons]
+    simp only [Generated.lattice_body]
+    split <;> exact ih _ _
+
+/-- one iteration of `while heap:` of `lindig.lattice`, with the regenerated neighbor loop -/
+theorem C03_generated_lattice_step (K : Ctx) (fuel : Nat) (heap : List Nat) (recs : List Rec) (order : List Nat) :
+    lindigLoop K (fuel + 1) heap recs order =
+      match minBy (shortlexKey K.n) heap with
+      | none => (recs, order.reverse)
+      | some e =>
+        let s := (neighbors K e).foldl (fun s nb => Generated.lattice_body e nb.1 nb.2 s.1 s.2) (recs, heap.erase e)
+        lindigLoop K fuel s.2 s.1 (e :: order) := by
+  rw [lindigLoop]
+  cases minBy (shortlexKey K.n) heap with
+  | none => rfl
+  | some e => simp only [C03_generated_lattice_body]
+
+end FCA
+#print axioms FCA.C03_generated_lattice_body
+#print axioms FCA.C03_generated_lattice_step
